@@ -145,7 +145,11 @@ PROPS = {
         v=[('u_mb2_dstlen', ['DynSizedStructure::cast', '*Tag::dst_len', 'DynSizedStructure::dst_len', 'MaybeDynSized::header', 'MaybeDynSized::as_bytes',
                              # the size of the generic view that cast() compares against comes from the Header impl and the constructors of the view
                              'TagHeader::payload_len', 'TagHeader::set_size', 'Header::total_size',
-                             'DynSizedStructure::ref_from_bytes', 'DynSizedStructure::ref_from_slice', 'TagIter::next'])],
+                             'DynSizedStructure::ref_from_bytes', 'DynSizedStructure::ref_from_slice', 'TagIter::next']),
+           # the header crate's kinds (HeaderTagHeader is the Header impl behind every header-tag cast)
+           ('u_hdr_builder', ['DynSizedStructure::cast', '*HeaderTag::dst_len', 'INFOREQ_BASE_SIZE', 'DynSizedStructure::dst_len',
+                              'HeaderTagHeader::payload_len', 'HeaderTagHeader::set_size', 'Header::total_size',
+                              'DynSizedStructure::ref_from_bytes', 'DynSizedStructure::ref_from_slice', 'TagIter::next'])],
         k_quick=[], k_thorough=[],
     ),
     'C18': dict(
@@ -280,7 +284,10 @@ for _frag in ('registry_mb2_sized', 'registry_mb2_dst', 'registry_header', 'regi
     _merge(_m.HARNESSES)
 FORCE_QUICK = {'k_elf_iter_provided_methods', 'k_efi_mmap_withheld', 'k_get_tag_first_match', 'k_tags_walk', 'k_tagiter_clone_history', 'k_module_iter',
                'k_efi_iter_wellformed', 'k_efi_iter_any', 'k_new_boxed_layout', 'k_mb2hdr_find_header_small'}
-_extra_props = {'k_module_iter': ['C03']}
+_extra_props = {'k_module_iter': ['C03'],
+                # the accessor harnesses pin field offsets / widths on the compiled layout: the constructor image is the same struct
+                'k_vbe_decode_top': ['C07'], 'k_vbe_decode_control': ['C07'], 'k_vbe_decode_mode': ['C07'],
+                'k_console_decode': ['C09'], 'k_relocatable_decode': ['C09']}
 # constructors of the header crate's DST kind allocate through new_boxed with a 4-aligned header type:
 # Kani's dealloc check on Box drop is the C16 "freed with the layout it was allocated with" obligation
 for _h in list(HARNESSES):
